@@ -1478,6 +1478,63 @@ def _derefs(st, t: str) -> bool:
     return rec(st, False)
 
 
+def _visibly_positive(e, at_stmt, fn) -> bool:
+    """a sum whose terms are lengths, non-negative integer literals and int(x) of a local x that the enclosing branches have tested with
+    x.isdigit(), with at least one positive literal (or the length of a non-empty literal): greater than 0"""
+    terms = []
+
+    def flat(x):
+        if isinstance(x, ast.BinOp) and isinstance(x.op, ast.Add):
+            flat(x.left)
+            flat(x.right)
+        else:
+            terms.append(x)
+    flat(e)
+    if len(terms) < 2:
+        return False
+    parents = {}
+    for p_ in ast.walk(fn):
+        for c_ in ast.iter_child_nodes(p_):
+            parents[id(c_)] = p_
+    if id(at_stmt) not in parents:
+        # the statement is a working copy: the guards are read at the one statement of the function with the same text
+        txt0 = ast.unparse(at_stmt)
+        same = [x for x in ast.walk(fn) if isinstance(x, ast.stmt) and type(x) is type(at_stmt) and ast.unparse(x) == txt0]
+        if len(same) != 1:
+            return False
+        at_stmt = same[0]
+
+    def digits_known(name):
+        n = at_stmt
+        while id(n) in parents:
+            p_ = parents[id(n)]
+            if isinstance(p_, ast.If):
+                txt = ast.unparse(p_.test)
+                in_body = any(n is y for y in p_.body)
+                in_else = any(n is y for y in p_.orelse)
+                if f"{name}.isdigit()" in txt:
+                    neg = isinstance(p_.test, ast.UnaryOp) and isinstance(p_.test.op, ast.Not)
+                    inner = p_.test.operand if neg else p_.test
+                    conj = inner.values if isinstance(inner, ast.BoolOp) and isinstance(inner.op, ast.And) else [inner]
+                    if any(ast.unparse(v_) == f"{name}.isdigit()" for v_ in conj) and ((neg and in_else) or (not neg and in_body)):
+                        return True
+            n = p_
+        return False
+    positive = False
+    for t_ in terms:
+        if isinstance(t_, ast.Constant) and isinstance(t_.value, int) and not isinstance(t_.value, bool) and t_.value >= 0:
+            positive = positive or t_.value > 0
+        elif isinstance(t_, ast.Call) and isinstance(t_.func, ast.Name) and t_.func.id == "len" and len(t_.args) == 1:
+            if isinstance(t_.args[0], ast.Constant) and isinstance(t_.args[0].value, (str, bytes)) and len(t_.args[0].value) > 0:
+                positive = True
+        elif isinstance(t_, ast.Call) and isinstance(t_.func, ast.Name) and t_.func.id == "int" and len(t_.args) == 1 and isinstance(t_.args[0], ast.Name) \
+                and digits_known(t_.args[0].id):
+            pass
+        else:
+            return False
+    return positive
+
+
 def thread_none_sentinels(modules, known, rep):
     """A new `if t is None: A else: B` directly behind an `if` tree whose every fall-through leaf has just assigned `t` either
     `None` or a value that cannot be None (int(..), arithmetic, a display ...) only re-reads the branch that was taken: A / B
@@ -1511,11 +1568,24 @@ def thread_none_sentinels(modules, known, rep):
                     if not (isinstance(s1, (ast.If, ast.Try)) and isinstance(s2, ast.If) and _is_fresh(s2, fn, kh)):
                         continue
                     c = s2.test
-                    if not (isinstance(c, ast.Compare) and len(c.ops) == 1 and isinstance(c.ops[0], (ast.Is, ast.IsNot)) and isinstance(c.left, ast.Name)
-                            and isinstance(c.comparators[0], ast.Constant) and c.comparators[0].value is None):
+                    zero = False
+                    if isinstance(c, ast.Compare) and len(c.ops) == 1 and isinstance(c.ops[0], (ast.Is, ast.IsNot)) and isinstance(c.left, ast.Name) \
+                            and isinstance(c.comparators[0], ast.Constant) and c.comparators[0].value is None:
+                        pass
+                    elif isinstance(c, ast.Compare) and len(c.ops) == 1 and isinstance(c.ops[0], (ast.Eq, ast.NotEq)) and isinstance(c.left, ast.Name) \
+                            and isinstance(c.comparators[0], ast.Constant) and c.comparators[0].value == 0 and not isinstance(c.comparators[0].value, bool) \
+                            and isinstance(c.comparators[0].value, int):
+                        zero = True  # the sentinel is the number 0 (`if n == 0:`): decided where n was just given 0 or a sum that is visibly positive
+                    else:
                         continue
                     t = c.left.id
-                    null_arm, other_arm = (s2.body, s2.orelse) if isinstance(c.ops[0], ast.Is) else (s2.orelse, s2.body)
+                    null_arm, other_arm = (s2.body, s2.orelse) if isinstance(c.ops[0], (ast.Is, ast.Eq)) else (s2.orelse, s2.body)
+
+                    def is_sent(v):
+                        return isinstance(v, ast.Constant) and ((v.value is None) if not zero else (v.value == 0 and isinstance(v.value, int) and not isinstance(v.value, bool)))
+
+                    def never_sent(v, at_stmt):
+                        return _never_none(v) if not zero else _visibly_positive(v, at_stmt, fn)
                     if not any(isinstance(n, ast.Name) and n.id == t and isinstance(n.ctx, ast.Store) for n in ast.walk(s1)):
                         continue
                     state0 = None
@@ -1524,9 +1594,9 @@ def thread_none_sentinels(modules, known, rep):
                         sk = stmts[k]
                         if isinstance(sk, ast.Assign) and len(sk.targets) == 1 and isinstance(sk.targets[0], ast.Name) and sk.targets[0].id == t:
                             v = sk.value
-                            state0 = "null" if isinstance(v, ast.Constant) and v.value is None else ("nonnull" if _never_none(v) else None)
+                            state0 = "null" if is_sent(v) else ("nonnull" if never_sent(v, sk) else None)
                             break
-                        if _derefs(sk, t):
+                        if not zero and _derefs(sk, t):
                             state0 = "nonnull"  # `t[...]` / `t.attr` was evaluated there: t is not None since
                             break
                         if any(isinstance(n, ast.Name) and n.id == t and isinstance(n.ctx, (ast.Store, ast.Del)) for n in ast.walk(sk)):
@@ -1541,6 +1611,8 @@ def thread_none_sentinels(modules, known, rep):
                     def refine(state, test, truth):
                         # what leaving the test this way says about t: an instance of something / truthy / `is not None` -> not None
                         from .guards import facts as _facts
+                        if zero:
+                            return state
                         for a_, tv_ in _facts(test, truth):
                             if tv_ and (re.fullmatch(rf"isinstance\({re.escape(t)}, .+\)", a_) or a_ == t or a_ == f"{t} is not None"):
                                 return "nonnull"
@@ -1554,7 +1626,7 @@ def thread_none_sentinels(modules, known, rep):
                         for st in block:
                             if isinstance(st, ast.Assign) and len(st.targets) == 1 and isinstance(st.targets[0], ast.Name) and st.targets[0].id == t:
                                 v = st.value
-                                state = "null" if isinstance(v, ast.Constant) and v.value is None else ("nonnull" if _never_none(v) else None)
+                                state = "null" if is_sent(v) else ("nonnull" if never_sent(v, st) else None)
                                 out.append(st)
                                 continue
                             if stores_t(st):
@@ -1597,14 +1669,14 @@ def thread_none_sentinels(modules, known, rep):
                         while k2 + 1 < len(block):
                             a_, b_ = block[k2], block[k2 + 1]
                             if isinstance(a_, ast.Assign) and len(a_.targets) == 1 and isinstance(a_.targets[0], ast.Name) and a_.targets[0].id == t \
-                                    and isinstance(a_.value, ast.Constant) and a_.value.value is None \
+                                    and is_sent(a_.value) \
                                     and isinstance(b_, ast.Assign) and len(b_.targets) == 1 and isinstance(b_.targets[0], ast.Name) and b_.targets[0].id == t \
                                     and not any(isinstance(n, ast.Name) and n.id == t for n in ast.walk(b_.value)):
                                 del block[k2]
                                 continue
                             # ... or by statements that leave the function (return / raise) without mentioning t: nothing reads the sentinel on that way out
                             if isinstance(a_, ast.Assign) and len(a_.targets) == 1 and isinstance(a_.targets[0], ast.Name) and a_.targets[0].id == t \
-                                    and isinstance(a_.value, ast.Constant) and a_.value.value is None and _exits(block) \
+                                    and is_sent(a_.value) and _exits(block) \
                                     and not any(isinstance(n, ast.Name) and n.id == t for r_ in block[k2 + 1:] for n in ast.walk(r_)) \
                                     and not _in_try_body(fn, b_) and not any(isinstance(n, (ast.Break, ast.Continue)) for r_ in block[k2 + 1:] for n in ast.walk(r_)):
                                 del block[k2]
